@@ -163,24 +163,11 @@ func (it *indexedMessageIterator) parseSummarySection() error {
 			if err != nil {
 				return fmt.Errorf("failed to parse chunk index: %w", err)
 			}
-			// if the chunk overlaps with the requested parameters, load it
+			// if the chunk overlaps with the requested parameters, load it. Chunks that
+			// hold no selected channel are dropped once the whole summary has been read
+			// (see the footer case): the channel records may follow the chunk indexes.
 			if (it.end == 0 && it.start == 0) || (idx.MessageStartTime < it.end && idx.MessageEndTime >= it.start) {
-				// Can't infer absence of a topic if there are no message indexes, and
-				// without a topic filter every channel is selected.
-				if len(idx.MessageIndexOffsets) == 0 || len(it.topics) == 0 {
-					it.chunkIndexes = append(it.chunkIndexes, idx)
-					continue
-				}
-				// Otherwise, scan the message index offsets and see if we are
-				// selecting it. ChannelInfo is set only for selected topics.
-				// NB: It would be nice if we had a more compact/direct
-				// representation of what channels are in a chunk.
-				for chanID := range idx.MessageIndexOffsets {
-					if it.channels.Get(chanID) != nil {
-						it.chunkIndexes = append(it.chunkIndexes, idx)
-						break
-					}
-				}
+				it.chunkIndexes = append(it.chunkIndexes, idx)
 			}
 		case TokenStatistics:
 			stats, err := ParseStatistics(record)
@@ -189,6 +176,9 @@ func (it *indexedMessageIterator) parseSummarySection() error {
 			}
 			it.statistics = stats
 		case TokenFooter:
+			if len(it.topics) > 0 {
+				it.chunkIndexes = it.chunksWithSelectedChannels(it.chunkIndexes)
+			}
 			// sort chunk indexes in the order that they will need to be loaded, depending on the specified
 			// read order.
 			switch it.order {
@@ -215,6 +205,27 @@ func (it *indexedMessageIterator) parseSummarySection() error {
 			return nil
 		}
 	}
+}
+
+// chunksWithSelectedChannels filters chunk indexes in place, keeping those that may hold a message
+// of a selected channel. ChannelInfo is set only for selected topics. We can't infer the absence of
+// a topic if a chunk index lists no message indexes.
+// NB: It would be nice if we had a more compact/direct representation of what channels are in a chunk.
+func (it *indexedMessageIterator) chunksWithSelectedChannels(chunkIndexes []*ChunkIndex) []*ChunkIndex {
+	selected := chunkIndexes[:0]
+	for _, idx := range chunkIndexes {
+		keep := len(idx.MessageIndexOffsets) == 0
+		for chanID := range idx.MessageIndexOffsets {
+			if it.channels.Get(chanID) != nil {
+				keep = true
+				break
+			}
+		}
+		if keep {
+			selected = append(selected, idx)
+		}
+	}
+	return selected
 }
 
 // loadChunk seeks to and decompresses a chunk into a chunk slot, then populates it.messageIndexes
